@@ -150,6 +150,18 @@ def run_env(c):
             return finish(res, c, ruined_at, trades_before)
         obs, reward, done, info = out
         tr = env.broker.track_record
+        # whatever happened to the account, the step has delivered the market events of the timestep it landed on
+        landed = tm.delivered_after_step(j)
+        if landed:
+            t_last = E.dt(max(e[0] for e in landed))
+            if env.now() != t_last:
+                res.fail("step %d (ledger NLV at decision %.6g) left the environment at %s; the latest event of the timestep it landed on is stamped %s" % (
+                    j, nlv_dec, env.now(), t_last))
+                return finish(res, c, ruined_at, trades_before)
+            if env.exchange.last_update != t_last:
+                res.fail("step %d (ledger NLV at decision %.6g): the exchange was last updated at %s, the latest quote of the timestep is stamped %s" % (
+                    j, nlv_dec, env.exchange.last_update, t_last))
+                return finish(res, c, ruined_at, trades_before)
         if nlv_dec <= 0:
             # (a) the decision arrived broke
             if len(tr) != ntr or holdings() != h0 or info:
